@@ -12,7 +12,7 @@ LEVEL = "exploration"
 TECHNIQUE = "Hypothesis-seeded generated IPS files (plain / run-length / maximum-length / adjacent / overlapping records, built by an independent encoder), signed deltas in three spellings, directive placements; exhaustive truncation of small patches; differential against an independent strict IPS reader"
 RULE = (
     "IPS files of 0-12 records built by vlib/model/ips.build: plain records (1..65535 bytes, weight on 1,2,65535) and run-length records (count 1..65535), adjacent / overlapping / out of "
-    "order, contents including the bytes 'EOF' and 'PATCH', offsets anywhere in [0x10000, 2^24) except 0x454F46; delta in {0, +-1, +-0x200, random} written as literal, `0 - n` or `-n`; the "
+    "order, contents including the bytes 'EOF' and 'PATCH', offsets anywhere in [0x20000, 2^24) except 0x454F46, plus (15 %) patches whose first record lands exactly on output offset 0 after the delta; delta in {0, +-1, +-0x200, random} written as literal, `0 - n` or `-n`; the "
     "directive at top level, inside a block, or between data statements of a host program that emits elsewhere.  Oracle: writer calls minus the host's own blocks (which, like its labels, must equal the host "
     "assembled alone) have the normalised effect [(offset+delta, data)] in record order.  Malformed inputs (wrong / missing header, every truncation point of a small patch, missing EOF, garbage) must be rejected.  "
     "Non-trivial = >=1 run-length record, or >=2 records, or a 65535-byte record, or a non-zero delta, or a malformed input; distinct by case hash."
@@ -20,14 +20,19 @@ RULE = (
 LEVEL_TEXT = "Differential exploration against an independent strict IPS reader/encoder over generated and exhaustively truncated patch files."
 LEVEL_NOTE = "Trusted: vlib/model/ips.py. Not generated: offset+delta outside [0,2^24) (unspecified), a record at 0x454F46 (ambiguous in the format), trailing bytes after EOF, RLE count 0."
 DESIGN_REF = "DESIGN.md §3 C13, §2.6"
-ASSUMPTIONS = ["host program emits at ROM offsets 0..0x3F only; patch offsets (after delta) stay >= 0x10000"]
+ASSUMPTIONS = ["host program emits at ROM offsets 0x8000..0x803F only; patch records (after delta) stay clear of 0x7F00..0x80FF and inside [0, 2^24)"]
 
-HOST_PRE = "*=0x008000\n.db 1, 2, 3\nhost_a:\n"
+HOST_PRE = "*=0x018000\n.db 1, 2, 3\nhost_a:\n"
 HOST_POST = ".db 4, 5\nhost_b:\n.dl host_b\n"
 
 
 def selftest() -> None:
     ips.selftest()
+
+
+def _near_host(o: int, n: int) -> bool:
+    """does [o, o+n) touch the neighbourhood of the host program's own bytes (ROM offsets 0x8000..0x803F)?"""
+    return o < 0x8100 and o + n > 0x7F00
 
 
 def _payload(rng, n):
@@ -48,6 +53,11 @@ def _build(rng):
     lo, hi = 0x20000, (1 << 24) - 0x20000
     prev_end = rng.randint(lo, hi - 0x100000)
     big_left = 2
+    if rng.random() < 0.15:
+        # the first record lands exactly on output offset 0 (a headered patch included with -0x200, a record at 0 ...)
+        first = rng.choice([0, 0, 0x200, 0x200, 1, 0x1000, 0x7FFF])
+        delta, lo, prev_end, big_left = -first, first, first, 0
+        nrec = max(1, min(nrec, 4))
     for _ in range(nrec):
         rle = rng.random() < 0.35
         k = rng.random()
@@ -58,6 +68,8 @@ def _build(rng):
         else:
             n = rng.choice([65535, 65534, 40000])
             big_left -= 1
+        if delta + lo == 0 and lo < 0x20000:
+            n = min(n, 200)
         p = rng.random()
         if p < 0.35:
             off = prev_end  # adjacent
@@ -66,7 +78,7 @@ def _build(rng):
         elif p < 0.65:
             off = max(lo, prev_end - rng.randint(1000, 100000))  # out of order
         else:
-            off = rng.randint(lo, hi - 70000)
+            off = rng.randint(lo, hi - 70000) if lo >= 0x20000 else prev_end + rng.randint(0, 40)
         if off + n >= hi:
             off = hi - n - 1
         if off == ips.EOF_OFFSET:
@@ -214,7 +226,7 @@ def _run_raw(case) -> Outcome:
             return Outcome(skip="trailing bytes after EOF (outside the generated domain)")
         except ips.IpsError:
             pass
-    if good and any(o == ips.EOF_OFFSET or o < 0x10000 or len(d) == 0 for o, d, _ in recs):
+    if good and any(o == ips.EOF_OFFSET or _near_host(o, len(d)) or len(d) == 0 for o, d, _ in recs):
         return Outcome(skip="record outside the generated domain")
     res = driver.assemble_mem(_program("between", "0"), files={"p.ips": {"hex": case["hex"]}})
     host = driver.assemble_mem(_host_only("between"))
@@ -262,7 +274,7 @@ def run_case(case) -> Outcome:
     blob = ips.build(recs)
     reps = {"loop": [0, LOOP_STEP, 2 * LOOP_STEP], "macro": [0, LOOP_STEP]}.get(case["place"], [0])
     expected = [(off + delta + extra, (bytes([p[0]]) * p[1]) if isinstance(p, tuple) else p) for extra in reps for off, p in recs]
-    if any(o < 0x10000 or o + len(d) > 1 << 24 for o, d in expected):
+    if any(o < 0 or _near_host(o, len(d)) or o + len(d) > 1 << 24 for o, d in expected):
         return Outcome(skip="offset+delta outside the generated domain")
     labels = [f"place:{case['place']}", f"delta-form:{case['form']}"]
     n_rle = sum(1 for _, p in recs if isinstance(p, tuple))
